@@ -51,8 +51,8 @@ def t_wal(ctx):
         ncall[0] += 1
         if not faults or i >= 6:
             return 'ok'
-        e = ctx.enum(f'io{i}', ('ok', 'fail'))
-        return 'fail' if e == 'fail' else 'ok'
+        e = ctx.enum(f'io{i}', ('ok', 'fail', 'fail_other'))
+        return e.pick() if is_sym(e) else e
 
     class FakeFile:
         def __init__(self, path):
@@ -69,6 +69,8 @@ def t_wal(ctx):
             ctx.rec('WAL_WRITE', bus=bus_of_path.get(self.path), outcome=o, text=s)
             if o == 'fail':
                 raise OSError('injected write failure')
+            if o == 'fail_other':
+                raise ValueError('injected non-OSError failure (e.g. encoding/serialisation)')
             return len(s)
 
     async def fake_open(path, mode='r', **kw):
@@ -76,12 +78,14 @@ def t_wal(ctx):
         ctx.rec('WAL_OPEN', bus=bus_of_path.get(str(path)), outcome=o, mode=mode)
         if o == 'fail':
             raise OSError('injected open failure')
+        if o == 'fail_other':
+            raise RuntimeError('injected non-OSError open failure')
         return FakeFile(path)
 
     saved = svc.anyio.open_file
     svc.anyio.open_file = fake_open
     try:
-        a = ctx.bus('A', wal_path=wal['A'])
+        a = ctx.bus('A', wal_path=wal['A'], **({'parallel_handlers': True} if topo == 'parallel' else {}))
         buses = {'A': a}
         if topo == 'forward':
             b = ctx.bus('B', wal_path=wal['B'])
@@ -94,6 +98,17 @@ def t_wal(ctx):
             return 'p'
         ctx.on(a, P, 'hP', hP)
         ctx.on(a, C, 'hC', ret='c')
+        if topo == 'parallel':
+            async def hSlow(h, ev):
+                await h.sleep(d)
+                await h.sleep(Exact('1/10'))
+                return 'slow'
+
+            async def hBoom(h, ev):
+                await h.sleep(Exact('1/20'))
+                raise ValueError('handler boom')
+            ctx.on(a, P, 'hSlow', hSlow)
+            ctx.on(a, P, 'hBoom', hBoom)
         ctx.on(a, PayloadEvent, 'hPay', ret='pay')
         if topo == 'forward':
             ctx.on(b, P, 'hPB', ret='pb')
@@ -144,7 +159,7 @@ def t_wal(ctx):
             ctx.check('C17.after_handlers', o.seq > last[lab], bus=bn, ev=lab)
             nxt = opens[i + 1].seq if i + 1 < len(opens) else tr.end
             mine = [w for w in writes if o.seq < w.seq < nxt]
-            if o.outcome == 'fail':
+            if o.outcome != 'ok':
                 ctx.witness('failed open')
                 ctx.check('C17.one_line_per_processed', not mine, bus=bn, ev=lab, why='write after failed open')
                 continue
@@ -152,7 +167,7 @@ def t_wal(ctx):
             if len(mine) != 1:
                 continue
             w = mine[0]
-            if w.outcome == 'fail':
+            if w.outcome != 'ok':
                 ctx.witness('failed write')
             txt = w.text
             ok_shape = isinstance(txt, str) and txt.endswith('\n') and txt.count('\n') == 1
@@ -186,6 +201,7 @@ def jobs(tier):
         Job('C17', 's1.wal', t_wal, dict(topo='nested', faults=True), witnesses=('failed open', 'failed write', 'payload round-trip')),
         Job('C17', 's1.wal', t_wal, dict(topo='nested', faults=False), witnesses=('payload round-trip',)),
         Job('C17', 's1.wal', t_wal, dict(topo='forward', faults=False), witnesses=('payload round-trip',)),
+        Job('C17', 's1.wal', t_wal, dict(topo='parallel', faults=False), witnesses=('payload round-trip',)),
     ]
     if tier == 'thorough':
         out.append(Job('C17', 's1.wal', t_wal, dict(topo='forward', faults=True), witnesses=('failed open', 'failed write')))
